@@ -3,6 +3,8 @@
 The message limiter of kyupy.Log (`with log.limit(n): ...`, used by the parsers for their warnings):
 (M) LogLimit.tla is model-checked (limits 0..3, 7 messages): nothing lost, order kept, exactly the first n messages of a
     window written, one summary line when leaving a window that held messages back;
+(A) spec/apalache/LogLimitInd.tla: Apalache proves the window bound by an inductive invariant for every limit n >= 0 and any
+    number of messages (base, step, IndInv => Goal);
 (T) recorded histories of start_limit / log / stop_limit calls on the real objects - the global kyupy.log and a private
     Log() - are replayed through the same actions (LogLimitTrace.tla): after every call the lines written must be the
     lines the specification writes.
@@ -72,6 +74,27 @@ def main(tier=None, replay=None):
     m = ck.tlc('LogLimit', 'MC_LogLimit', label='M:MC_LogLimit', cont=False)
     if m.rc != 0:
         raise MachineryError('LogLimit: the design model violates its own properties: %s' % m.invariant_violations)
+    # (A) unbounded: Apalache discharges an inductive invariant for ANY limit and any number of messages (spec/apalache/LogLimitInd.tla)
+    import os, shutil, subprocess, tempfile
+    from .core import SPEC
+    apa = {}
+    if shutil.which('apalache-mc'):
+        out = tempfile.mkdtemp(prefix='apa_x03_')
+        try:
+            for name, args in (('base', ['--init=Init', '--inv=IndInv', '--length=0']), ('step', ['--init=IndInv', '--inv=IndInv', '--length=1']),
+                               ('goal', ['--init=IndInv', '--inv=Goal', '--length=0'])):
+                try:
+                    p = subprocess.run(['apalache-mc', 'check'] + args + ['--out-dir=' + out, 'LogLimitInd.tla'], cwd=os.path.join(SPEC, 'apalache'),
+                                       stdout=subprocess.PIPE, stderr=subprocess.STDOUT, text=True, timeout=900)
+                    apa[name] = 'NoError' if 'The outcome is: NoError' in p.stdout else 'FAILED'
+                except subprocess.TimeoutExpired:
+                    apa[name] = 'timeout'
+        finally:
+            shutil.rmtree(out, ignore_errors=True)
+        print('[X03] Apalache inductive invariant (any limit, any number of messages): %s' % apa)
+        if any(v == 'FAILED' for v in apa.values()):
+            raise MachineryError('LogLimitInd: the inductive invariant is not inductive: %s' % apa)
+    ck.extra['apalache_inductive_invariant'] = apa or 'apalache-mc not found'
     rnd = random.Random(ck.seed)
     trs = []
     for t in range(ck.pick(150, 1500)):
